@@ -22,6 +22,7 @@ pub fn str_of(id: &str) -> &'static str {
     match id {
         "s0" => "r\u{e9}sum\u{e9}",
         "s1" => "caf\u{e9}",
+        "" => "",
         _ => "?",
     }
 }
@@ -372,6 +373,8 @@ fn obs_value(d: &Data, payload: &Value, strings: &[String]) -> Value {
                 json!({"t": "f", "cls": -1, "sc": 0})
             }
         }
+        // (the empty text is its own id: a formula whose cached result is the blank string)
+        Data::String(s) if s.is_empty() => json!({"t": "s", "v": ""}),
         Data::String(s) => match strings.iter().position(|t| t == s) {
             Some(i) => json!({"t": "s", "v": format!("str{}", i)}),
             None => json!({"t": "s", "v": "?"}),
@@ -515,7 +518,7 @@ pub fn drive_cells(args: &Args) -> i32 {
                         payloads.push(((r, c), json!({})));
                     }
                     15..=17 => {
-                        let (res, rj, pl) = match rng.gen_range(0..4) {
+                        let (res, rj, pl) = match rng.gen_range(0..5) {
                             0 => {
                                 let v: f64 = rng.gen_range(-1e9..1e9);
                                 // every other cached number has one of the marker values of the non-numeric results
@@ -527,6 +530,7 @@ pub fn drive_cells(args: &Args) -> i32 {
                             }
                             1 => (FRes::Bool(rng.gen_bool(0.5)), Value::Null, json!({})),
                             2 => (FRes::Err(errs[rng.gen_range(0..8)]), Value::Null, json!({})),
+                            3 => (FRes::Blank, json!({"t": "empty"}), json!({})),
                             _ => (FRes::Str, json!({"t": "str"}), json!({})),
                         };
                         let rj = match &res {
